@@ -78,8 +78,6 @@ TReq ==
            /\ out'.exec = Trace[l].out.exec
            /\ Coarse(out'.class) = Trace[l].out.class
            /\ out'.ops = Trace[l].out.ops
-           /\ cache' = CacheOf(Trace[l].ents)
-           /\ order' = Trace[l].order
       ELSE PrintT(ToJson([l |-> l, o |-> out', t |-> Proj'])))
 
 TraceNext == TReset \/ TReq
